@@ -12,24 +12,20 @@ Proof. exact glencoe_roundtrip. Qed.
 Print Assumptions C08_roundtrip.
 
 (* ---- the writer half about the TRANSLATED SOURCE of glencoe_writer.py (Gen/Src_glencoe.v, regenerated on every
-   run; DESIGN §10): with distinct feature names the translated _to_json IS glencoe_write, errors included.
-   The hypothesis is needed (C08_source_writer_needs_distinct_names): Python's sort is stable, the hand model's
-   sort_by is not, and they differ on two siblings of one name — outside every model C08 quantifies over. ---- *)
-Theorem C08_source_writer : forall m fuel, (fuel_model m <= fuel)%nat -> NoDup (names (root m)) ->
+   run; DESIGN §10): the translated _to_json IS glencoe_write, errors included, on every model — no hypothesis on the
+   feature names: the hand model's sort_by is stable, as Python's sorted() is, so the two agree also on siblings of
+   one name (Proofs/SrcGlencoeFacts.v, sg_sorted_sort_by) ---- *)
+Theorem C08_source_writer : forall m fuel, (fuel_model m <= fuel)%nat ->
   py__to_json fuel m = glencoe_write m.
 Proof. exact src_glencoe_to_json. Qed.
 Print Assumptions C08_source_writer.
 
-Theorem C08_source_writer_needs_distinct_names : exists m, py__to_json (fuel_model m) m <> glencoe_write m.
-Proof. exact src_glencoe_needs_distinct_names. Qed.
-Print Assumptions C08_source_writer_needs_distinct_names.
-
-Theorem C08_source_roundtrip : forall m fuel, (fuel_model m <= fuel)%nat -> NoDup (names (root m)) ->
+Theorem C08_source_roundtrip : forall m fuel, (fuel_model m <= fuel)%nat ->
   glencoe_ok m = true ->
   exists d pm, py__to_json fuel m = Ok d /\ glencoe_read d = Ok pm /\ erase_fm pm = glencoe_norm m.
 Proof.
-  intros m fuel Hf Hn Hok. destruct (glencoe_roundtrip m Hok) as (d & pm & Hw & Hr & He).
-  exists d, pm. rewrite (src_glencoe_to_json m fuel Hf Hn). exact (conj Hw (conj Hr He)).
+  intros m fuel Hf Hok. destruct (glencoe_roundtrip m Hok) as (d & pm & Hw & Hr & He).
+  exists d, pm. rewrite (src_glencoe_to_json m fuel Hf). exact (conj Hw (conj Hr He)).
 Qed.
 Print Assumptions C08_source_roundtrip.
 
@@ -105,14 +101,14 @@ Print Assumptions C08_source_reader_library_error.
 
 (* the whole cycle on the translated source: the translated writer, then the translated reader, give the normal
    form of the model back (and C08_norm_* say the normal form only re-orders) *)
-Theorem C08_source_cycle : forall w m, NoDup (names (root m)) -> glencoe_ok m = true ->
+Theorem C08_source_cycle : forall w m, glencoe_ok m = true ->
   exists d n0, forall fuel, (n0 <= fuel)%nat ->
     py__to_json fuel m = Ok d /\ py_GlencoeReader_transform fuel w d = Ok (glencoe_norm m).
 Proof.
-  intros w m Hn Hok. destruct (glencoe_roundtrip m Hok) as (d & pm & Hw & Hr & He).
+  intros w m Hok. destruct (glencoe_roundtrip m Hok) as (d & pm & Hw & Hr & He).
   destruct (src_glencoe_read w d pm Hr) as (n1 & Hn1).
   exists d, (Nat.max (fuel_model m) n1). intros fuel Hf. split.
-  - rewrite src_glencoe_to_json; [exact Hw| |exact Hn]. eapply Nat.le_trans; [apply Nat.le_max_l|exact Hf].
+  - rewrite src_glencoe_to_json; [exact Hw|]. eapply Nat.le_trans; [apply Nat.le_max_l|exact Hf].
   - rewrite Hn1; [now rewrite He|]. eapply Nat.le_trans; [apply Nat.le_max_r|exact Hf].
 Qed.
 Print Assumptions C08_source_cycle.
